@@ -94,7 +94,7 @@ def run(pid, tier, seed, njobs=None):
     return rc
 
 
-def finish_seq(pid, tier, seed, verdict, jobs, res, t0, rule, module="Trace_Seq", extra_cov=None, sig_prefix="seq"):
+def finish_seq(pid, tier, seed, verdict, jobs, res, t0, rule, module="Trace_Seq", extra_cov=None, sig_prefix="seq", level="model_checking"):
     projected, byid, crashes = [], {}, 0
     for job, trace, crash in res:
         if crash is not None:
@@ -131,6 +131,6 @@ def finish_seq(pid, tier, seed, verdict, jobs, res, t0, rule, module="Trace_Seq"
     if extra_cov:
         cov.update(extra_cov)
     rc = verdict.finish()
-    lib.write_evidence(pid, tier, seed, "model_checking", cov, time.time() - t0, len(verdict.violations),
+    lib.write_evidence(pid, tier, seed, level, cov, time.time() - t0, len(verdict.violations),
                        ["Eq/Ord/Hash of keys are consistent", "TLC / SANY", "the harness's observation code (iter / get / len through the public API)"])
     return rc
